@@ -192,6 +192,46 @@ def r4_independent(ctx):
         ctx.check(ok and hashed, "%s/writes-independent" % short(b.path), site_of(b, bb), "`independent` is written outside the hashed make_*_independent registrations")
     f = [x for x in F.adt_fields(C14.SERVER_EVENT) if x["name"] == "independent"]
     ctx.check(f and f[0]["vis"] != "pub", "ServerEvent.independent/not-public", C14.SERVER_EVENT, "field is public")
+    # the marked entry is looked up in the collection of its own kind only: an event registration can never mark a trigger of the
+    # same type independent or vice versa (a type may be registered as both)
+    REG = "bevy_replicon::shared::event::remote_event_registry::RemoteEventRegistry"
+
+    def registry_fields(body, depth=0, seen=None):
+        seen = seen if seen is not None else set()
+        if body.path in seen or depth > 4:
+            return set()
+        seen.add(body.path)
+        out = set()
+
+        def scan(x):
+            if isinstance(x, dict):
+                if x.get("adt") == REG and "name" in x and "f" in x:
+                    out.add(x["name"])
+                for v in x.values():
+                    scan(v)
+            elif isinstance(x, list):
+                for v in x:
+                    scan(v)
+        for blk in body.blocks:
+            if blk.idx not in body.reach:
+                continue
+            scan(blk.stmts)
+            scan(blk.term)
+        for _, t in body.calls():
+            cb = F.fns.get(callee_decl(t)) or F.fns.get(callee_name(t))
+            if cb is not None and cb.path.startswith(REG):
+                out |= registry_fields(cb, depth + 1, seen)
+        for cb in F.closures_of(body.path):
+            out |= registry_fields(cb, depth + 1, seen)
+        return out
+    want = {"make_event_independent": {"server_events"}, "make_trigger_independent": {"server_triggers"}}
+    for b, bb in writers:
+        kind = b.path.rsplit("::", 1)[-1]
+        if kind in want:
+            got = registry_fields(b)
+            ctx.check(got == want[kind], "%s/marks-own-kind-only" % short(b.path), site_of(b, bb),
+                      "`%s` looks the entry to mark up in %s (expected %s only): for a type registered both as event and as trigger the wrong one becomes independent and "
+                      "bypasses the authorization gate" % (kind, sorted(got), sorted(want[kind])), "looks up in %s" % sorted(got))
 
 
 def r5_handshake(ctx):
